@@ -352,6 +352,27 @@ def check_parser_literals(ctx, fx, rule):
     ctx.floor(rule, n, 8, "fixed spellings compared")
 
 
+def check_origin(ctx, fx, rule):
+    """T10.  The origin of a URL: special schemes other than file give (scheme, host, port); a blob URL gives the origin of
+    the URL in its path when that one is http or https; everything else gives an opaque origin ("null").  Both URL types
+    spell this out with the same three string literals and the same three scheme enumerators."""
+    n = 0
+    for cls in ("ada::url", "ada::url_aggregator"):
+        f = fx.fn1("%s::get_origin" % cls)
+        # (the aggregator compares get_protocol(), which carries the ':', with "blob:")
+        lits = {nd["v"][:-1] if nd["v"].endswith(":") and len(nd["v"]) > 1 else nd["v"]
+                for nd, st, b in C.all_nodes(f) if nd.get("k") == "lit" and nd.get("str")}
+        enums = {nd["name"] for nd, st, b in C.all_nodes(f) if nd.get("k") == "ref" and nd.get("kind") == "enumerator"}
+        n += 1
+        ctx.check(rule, "%s::get_origin spells the Standard's cases" % cls.split("::")[-1],
+                  lits == {"null", "//", "blob"} and enums == {"FILE", "HTTP", "HTTPS"},
+                  "literals %s, schemes %s" % (sorted(lits), sorted(enums)),
+                  "%s::get_origin uses the literals %s and the scheme enumerators %s; the origin is \"null\" for file and for "
+                  "non-special schemes, scheme + \"//\" + host(:port) for the other special schemes, and for \"blob\" the origin of "
+                  "the path URL when that is http or https" % (cls, sorted(lits), sorted(enums)), where=f["loc"].replace("/repo/", ""))
+    ctx.floor(rule, n, 2, "get_origin implementations")
+
+
 def _control_conditions(f, blocks, preds, bid, stop):
     """branch conditions (text, edge) on the single-predecessor chain from block bid up to (not including) `stop` blocks"""
     out = []
